@@ -181,4 +181,13 @@ CHECKS = {
             dict(name="reject", run="^TestReject$", quick=150, thorough=1500, shards=6),
         ],
     ),
+    "C10": dict(
+        pkg="c10", level="exploration",
+        rule=("each case = a generated source tree (mem.FS; <=3 directories, <=6 files with sizes from {0,1,511,512,513,1024,1500,5000} around the 512-byte copy buffer, assorted modes), a RetainData policy (default/never/by name/by size), "
+              "a cache store (mem.FS or one exposing only OpenFile+Mkdir) and a source flavour (handles with or without Seek); then a rapid state machine of open(name) into 3 handle slots (files, directories, missing names; repeated and interleaved), "
+              "read(n), seek, handle stat, paged handle readdir, close, Stat(name), ReadDir(name). Every call is mirrored on a twin handle / call on an identical source: names, kinds, sizes, modes, bytes and EOF position must agree; a counting wrapper proves that "
+              "an Open of an already cached retained file, and reads through handles of such later opens, never reach the source. non-trivial = a retained file >512 B opened again after caching, or a directory read in >=2 pages"),
+        assumptions=["the source does not change (the cache's documented precondition)", "modification times are not compared"],
+        legs=[dict(name="cache", run="^TestCache$", quick=600, thorough=6000, shards=8)],
+    ),
 }
